@@ -271,6 +271,7 @@ func (m *Mast) flush(ctx context.Context) (string, error) {
 		return "", fmt.Errorf("no persistence mechanism set; set RemoteConfig.StoreImmutablePartsWith")
 	}
 	if m.root == nil {
+		m.emptied = false
 		return "", nil
 	}
 	node, err := m.load(ctx, m.root)
@@ -694,7 +695,8 @@ func (m *Mast) IsDirty() bool {
 	if node, ok := m.root.(*mastNode); ok {
 		return node.dirty
 	}
-	return false
+	// an emptied tree has no top node to carry the flag
+	return m.root == nil && m.emptied
 }
 
 // Cursor can be used to seek around a tree.
